@@ -87,7 +87,23 @@ int vp_case(Choice& c, Report& rep) {
   bool saw_transition = false, saw_multiframe = false, saw_padding = false;
   uint64_t fp = mix(e.Fs, mix(e.ch, mix(drate, dch)));
   std::vector<float> x;
+  // class "mode ping-pong": forced modes with dwell times of 1-3 packets (single SILK/hybrid packets between MDCT packets and vice versa,
+  // with the short frame sizes only the MDCT layer has), so that redundancy / cross-fade paths of isolated packets are exercised
+  bool pingpong = c.chance(64);
+  int dwell = 0, cur_mode = -1;
+  if (pingpong) rep.label("class:mode-ping-pong");
   while (pos < total && packets.size() < 400) {
+    if (pingpong) {
+      if (dwell <= 0) {
+        int nm = c.pick((const int[]){cu::MODE_CELT, cu::MODE_SILK, cu::MODE_CELT, cu::MODE_HYBRID});
+        if (nm == cur_mode) nm = nm == cu::MODE_CELT ? cu::MODE_SILK : cu::MODE_CELT;
+        if (nm == cu::MODE_HYBRID && e.Fs < 24000) nm = cu::MODE_SILK;
+        cur_mode = nm; dwell = c.irange(1, 3);
+        ref_opus_encoder_ctl(enc.p, CU_SET_FORCE_MODE(nm));
+        d = nm == cu::MODE_CELT ? c.pick((const int[]){1, 0, 2, 3, 1}) : nm == cu::MODE_HYBRID ? c.pick((const int[]){2, 3}) : c.pick((const int[]){2, 3, 3, 4});
+      }
+      dwell--;
+    } else
     if (c.chance(40) && ntrans < 6) {
       // mid-stream change to force mode / bandwidth / channel transitions
       int w = c.irange(0, 4);
